@@ -14,8 +14,25 @@ import (
 
 func init() { Registry["C06"] = c06 }
 
+// litAlias maps parameters of helper functions that build part of a literal to the caller's
+// arguments (filled by litFields; consulted by resolveAlias).
+var litAlias = map[ssa.Value]ssa.Value{}
+
+func resolveAlias(v ssa.Value) ssa.Value {
+	for i := 0; i < 4; i++ {
+		a, ok := litAlias[v]
+		if !ok {
+			return v
+		}
+		v = a
+	}
+	return v
+}
+
 // litFields collects, for a composite literal built in a local cell, the value stored per field
-// path (".Header.Version" ...), following whole-struct stores from nested literals.
+// path (".Header.Version" ...), following whole-struct stores from nested literals and from helper
+// functions whose single return value is such a literal (their parameters are mapped to the
+// call's arguments).
 func litFields(cell *ssa.Alloc) map[string]ssa.Value {
 	out := map[string]ssa.Value{}
 	var collect func(a *ssa.Alloc, prefix string, depth int)
@@ -36,13 +53,47 @@ func litFields(cell *ssa.Alloc) map[string]ssa.Value {
 						continue
 					}
 				}
+				if call, isCall := st.Val.(*ssa.Call); isCall && depth < 3 {
+					if g := call.Call.StaticCallee(); g != nil && core.InModule(g) && len(g.Blocks) > 0 {
+						var lit *ssa.Alloc
+						nRet := 0
+						for _, gb := range g.Blocks {
+							for _, gi := range gb.Instrs {
+								if ret, isRet := gi.(*ssa.Return); isRet && len(ret.Results) == 1 {
+									nRet++
+									if ld, ok := ret.Results[0].(*ssa.UnOp); ok && ld.Op == token.MUL {
+										if al, ok := ld.X.(*ssa.Alloc); ok {
+											lit = al
+										}
+									}
+								}
+							}
+						}
+						if nRet == 1 && lit != nil {
+							for i, pa := range g.Params {
+								if i < len(call.Call.Args) {
+									litAlias[pa] = call.Call.Args[i]
+								}
+							}
+							litCallSite[lit] = call
+							collect(lit, prefix+path, depth+1)
+							continue
+						}
+					}
+				}
 				out[prefix+path] = st.Val
 			}
 		}
 	}
 	collect(cell, "", 0)
+	for k, v := range out {
+		out[k] = resolveAlias(v)
+	}
 	return out
 }
+
+// litCallSite: for a literal built inside a helper, the call in the outer function that produced it.
+var litCallSite = map[*ssa.Alloc]*ssa.Call{}
 
 // packetLiterals finds every &Packet{...} built in fn.
 func packetLiterals(fn *ssa.Function) []*ssa.Alloc {
@@ -67,7 +118,7 @@ func isLoadOfRecvField(v ssa.Value, recv ssa.Value, field string) bool {
 		return false
 	}
 	root, path := core.AddrKey(ld.X)
-	return root == recv && path == "."+field
+	return resolveAlias(root) == recv && path == "."+field
 }
 
 // C06 — Packetizer emits a valid, MTU-bounded, correctly numbered packet train.
@@ -116,20 +167,51 @@ func c06(c *Ctx) {
 			add("STRUCT.lit", fname, "SSRC = configured SSRC", pos, isLoadOfRecvField(f[".Header.SSRC"], recv, "SSRC"), "")
 			// sequence number: one NextSequenceNumber() invoke in the literal's block
 			seqOK := false
-			if call, ok := f[".Header.SequenceNumber"].(*ssa.Call); ok && call.Call.IsInvoke() && call.Call.Method.Name() == "NextSequenceNumber" && call.Block() == lit.Block() {
-				seqOK = true
-			}
 			nCalls := 0
-			for _, in := range lit.Block().Instrs {
-				if call, ok := in.(*ssa.Call); ok && call.Call.IsInvoke() && call.Call.Method.Name() == "NextSequenceNumber" {
-					nCalls++
+			countIn := func(b *ssa.BasicBlock) {
+				for _, in := range b.Instrs {
+					if call, ok := in.(*ssa.Call); ok && call.Call.IsInvoke() && call.Call.Method.Name() == "NextSequenceNumber" {
+						nCalls++
+					}
+				}
+			}
+			if call, ok := f[".Header.SequenceNumber"].(*ssa.Call); ok && call.Call.IsInvoke() && call.Call.Method.Name() == "NextSequenceNumber" {
+				switch {
+				case call.Block() == lit.Block():
+					seqOK = true
+					countIn(lit.Block())
+				case call.Parent() != fn && len(call.Parent().Blocks) == 1:
+					// drawn inside a straight-line helper that builds the header: one call per helper call,
+					// and the helper is called once in the literal's block
+					countIn(call.Block())
+					helperCalls := 0
+					for _, in := range lit.Block().Instrs {
+						if hc, ok := in.(*ssa.Call); ok && hc.Call.StaticCallee() == call.Parent() {
+							helperCalls++
+						}
+					}
+					seqOK = helperCalls == 1
 				}
 			}
 			add("STRUCT.seq", fname, "SequenceNumber = the single NextSequenceNumber() call of this iteration", pos, seqOK && nCalls == 1, fmt.Sprintf("%d calls in the iteration", nCalls))
 			// timestamp: entry value of p.Timestamp
 			tsOK := false
-			if ld, ok := f[".Header.Timestamp"].(*ssa.UnOp); ok && isLoadOfRecvField(ld, recv, "Timestamp") {
+			if ld0, ok := f[".Header.Timestamp"].(*ssa.UnOp); ok && isLoadOfRecvField(ld0, recv, "Timestamp") {
 				tsOK = true
+				// position of the read in fn: the load itself, or the call of the helper that performs it
+				var ld ssa.Instruction = ld0
+				if ld0.Parent() != fn {
+					ld = nil
+					for _, in := range lit.Block().Instrs {
+						if hc, ok := in.(*ssa.Call); ok && hc.Call.StaticCallee() == ld0.Parent() {
+							ld = hc
+						}
+					}
+					if ld == nil {
+						tsOK = false
+						ld = lit
+					}
+				}
 				// no store to the timestamp may reach this read
 				for _, b := range fn.Blocks {
 					for _, in := range b.Instrs {
@@ -280,8 +362,17 @@ func c06(c *Ctx) {
 			if ia, ok := ld.X.(*ssa.IndexAddr); ok {
 				if sub, ok := ia.Index.(*ssa.BinOp); ok && sub.Op == token.SUB {
 					if k, isC := core.ConstInt(sub.Y); isC && k == 1 {
-						if ln, ok := sub.X.(*ssa.Call); ok && core.BuiltinName(ln) == "len" && ln.Call.Args[0] == ia.X {
-							lastOK = true
+						if ln, ok := sub.X.(*ssa.Call); ok && core.BuiltinName(ln) == "len" {
+							y := ln.Call.Args[0]
+							if y == ia.X {
+								lastOK = true
+							}
+							// len(payloads)-1 where packets = make([]*Packet, len(payloads))
+							if mk, ok := ia.X.(*ssa.MakeSlice); ok {
+								if l2, ok := mk.Len.(*ssa.Call); ok && core.BuiltinName(l2) == "len" && l2.Call.Args[0] == y {
+									lastOK = true
+								}
+							}
 						}
 					}
 				}
